@@ -327,3 +327,28 @@ PROPS["C15"] = dict(
         assumptions=_E1_ASSUME,
     ),
 )
+
+PROPS["C12"] = dict(
+    level="model_checking",
+    budget_s=dict(quick=150, thorough=1500),
+    parts=[dict(name="ids", bin="C12", flavour="plain", resume_mode="skip", max_crashes=3)],
+    extra_bins=["idhelper"],
+    manifest=dict(
+        engine="E1", design_ref="5 / C12",
+        technique="explicit-state BFS over creation/deletion histories checking id invariants on every transition; exhaustive enumeration of multi-process (and multi-thread) schedules with every clock the id generator could read owned by the harness",
+        text="(a) On every transition of a BFS over the entity alphabet (empty seed depth 3/4, rich seed R1 depth 1 with the full alphabet incl. UUID-shaped names) every observable id "
+             "must be a well-formed non-nil UUID, all ids pairwise distinct, ids of surviving entities (same kind and path) unchanged (forceId on the file excepted) and new ids different "
+             "from all ids that existed before the step. (b) Schedules: 2-3 real processes (fork+exec, fresh generator each) - and two threads of one process - run every pair of creation "
+             "histories (length <= 2 quick / 3 thorough over block, section, array, property, feature, ...) on the same file in orders A-B, A-B-A, A-B-C or on different files, for every "
+             "assignment of start times from {T,T,T+1}; time(), gettimeofday() and clock_gettime() of the helper return the assigned value, so 'same second' (and same nanosecond) is forced. "
+             "All ids of a schedule must be pairwise distinct and well-formed.",
+        note="Real pids are left alone. Collisions of genuinely random 122-bit ids are outside any bounded check; what is decided is that ids do not become equal because of the schedule or history."),
+    evidence=dict(
+        keys=dict(states=("distinct", "states"), transitions=("count", "transitions"), traces_validated_against_impl=("sum", [("count", "traces"), ("count", "schedules")]),
+                  evaluations=("count", "ids_checked"), distinct_nontrivial=("distinct", "outcomes"), schedules=("count", "schedules")),
+        rule="(a) BFS transitions with id invariants; (b) schedule = (participants, clock assignment, session order, same/different file, history per participant); "
+             "distinct_nontrivial = distinct (operation, entity count delta) outcomes of (a).",
+        bound=dict(quick="(a) empty seed level-1 depth 3, R1 full alphabet depth 1; (b) P<=3, histories of length <=2 over 5 kinds, 12 schedules + thread variant", thorough="(a) depth 4; (b) histories length <=3 over 8 kinds, 16 schedules"),
+        assumptions=_E1_ASSUME + ["std::random_device is not interposed (it reads the kernel's entropy source, not a clock)"],
+    ),
+)
